@@ -35,6 +35,7 @@ type Run struct {
 type Case struct {
 	ID     int      `json:"id"`
 	Class  string   `json:"class"`
+	Why    string   `json:"why,omitempty"`
 	Cfg    Cfg      `json:"cfg"`
 	Faults []*Fault `json:"faults"` // one entry per interrupted start (nil = start without failure)
 	Runs   []Run    `json:"runs"`   // the interrupted starts, then two starts without failure
